@@ -56,6 +56,8 @@ type scenario struct {
 	Ext       bool     `json:"ext"` // ExtendedProvider present (possibly with zero providers)
 	Override  bool     `json:"override"`
 	Eps       []epSpec `json:"eps,omitempty"`
+	Attach    []epSpec `json:"attach,omitempty"` // entries attached AFTER signing by mutation ep-attach (Mut.Index: how they are signed)
+	AttachOv  bool     `json:"attach_override,omitempty"`
 	OldFormat bool     `json:"old_format,omitempty"`
 	Codec     string   `json:"codec,omitempty"` // round trip after signing, before the mutation: "", dag-json, dag-cbor
 	Mut       mutation `json:"mut"`
@@ -551,6 +553,61 @@ func applyMutation(sc *scenario, ad *schema.Advertisement) bool {
 			p.Metadata = append(append([]byte{}, p.Metadata...), 7)
 		}
 	// ---- structure
+	case "ep-attach":
+		// An extended-provider list is attached to the SIGNED advertisement (its own
+		// signature does not cover the list).  The entries come from a twin advertisement
+		// with the same values that is not a removal, signed with the library:
+		//   Index%4 == 0  unsigned entries
+		//              1  every entry genuinely signed by the identity it names (main: the ad signer)
+		//              2  one entry sealed by a foreign key
+		//              3  genuinely signed entries, the main provider's left out
+		if len(sc.Attach) == 0 {
+			return false
+		}
+		twin := *sc
+		twin.Rm, twin.Ext, twin.Eps, twin.Override = false, true, append([]epSpec{}, sc.Attach...), sc.AttachOv
+		twin.OldFormat, twin.Codec, twin.Mut = false, "", mutation{Ep: -1}
+		hasMain := false
+		for _, e := range twin.Eps {
+			hasMain = hasMain || e.Named == sc.Provider
+		}
+		if !hasMain { // the library signs no list without the main provider: add it, drop it afterwards
+			twin.Eps = append(twin.Eps, epSpec{Named: sc.Provider, Sealer: -1})
+		}
+		variant := m.Index % 4
+		if variant == 2 {
+			i := (m.Index / 4) % len(twin.Eps)
+			twin.Eps[i].Sealer = firstOther(twin.Eps[i].Named, properSealer(&twin, twin.Eps[i]))
+		}
+		tw := unsignedAd(&twin)
+		// same values as the advertisement being tampered with (the content seed gives them)
+		tw.PreviousID, tw.Entries, tw.Provider, tw.ContextID = ad.PreviousID, ad.Entries, ad.Provider, ad.ContextID
+		if err := signReal(&twin, tw); err != nil {
+			panic("twin signing failed: " + err.Error())
+		}
+		x := tw.ExtendedProvider
+		if !hasMain {
+			x.Providers = x.Providers[:len(x.Providers)-1]
+		}
+		switch variant {
+		case 0:
+			for i := range x.Providers {
+				x.Providers[i].Signature = nil
+			}
+		case 3:
+			var keep []schema.Provider
+			for i, p := range x.Providers {
+				if i < len(sc.Attach) && sc.Attach[i].Named == sc.Provider {
+					continue
+				}
+				keep = append(keep, p)
+			}
+			if len(keep) == 0 || len(keep) == len(x.Providers) {
+				return false // nothing to leave out, or nothing left
+			}
+			x.Providers = keep
+		}
+		ad.ExtendedProvider = x
 	case "ep-drop":
 		if !epOK {
 			return false
